@@ -489,12 +489,22 @@ func vsRewriteZip(path string, entryName string, how string) {
 		data []byte
 	}
 	var mems []mem
+	lying := map[string]bool{} // members whose header size was already made to lie by an earlier rewrite
 	for _, f := range zr.File {
-		rc, err := f.Open()
-		vsMust(err)
-		b, err := io.ReadAll(rc)
-		vsMust(err)
-		rc.Close()
+		var b []byte
+		if f.Method == zip.Store && f.UncompressedSize64 != f.CompressedSize64 {
+			lying[f.Name] = true
+			raw, err := f.OpenRaw()
+			vsMust(err)
+			b, err = io.ReadAll(raw)
+			vsMust(err)
+		} else {
+			rc, err := f.Open()
+			vsMust(err)
+			b, err = io.ReadAll(rc)
+			vsMust(err)
+			rc.Close()
+		}
 		mems = append(mems, mem{f.Name, b})
 	}
 	zr.Close()
@@ -554,7 +564,7 @@ func vsRewriteZip(path string, entryName string, how string) {
 		fh.CRC32 = crc32.ChecksumIEEE(m.data)
 		fh.CompressedSize64 = uint64(len(m.data))
 		fh.UncompressedSize64 = uint64(len(m.data))
-		if lieSize && i == entIdx {
+		if (lieSize && i == entIdx) || lying[m.name] {
 			fh.UncompressedSize64 = uint64(len(m.data)) + 1
 		}
 		w, err := zw.CreateRaw(fh)
